@@ -121,6 +121,24 @@ async fn flood_run(getters: u64) {
     }
 }
 
+/// The clock is ahead of the wall clock (a remote stamp was registered) and its counter is next to the actor's
+/// back-pressure limit (u16::MAX - 10): the stamps handed out across the limit must keep increasing and stay above
+/// the registered stamp.  `gets` is kept small enough for the counter not to run out.
+async fn limit_run(remote_counter: u16, gets: u64) {
+    let base: u64 = 7000;
+    verif::set_node_wall(NODE, Some(Duration::from_millis(base * 4)));
+    let clock = Clock::new(NODE);
+    let remote = HLCTimestamp::new(Duration::from_millis((base + 50) * 4), remote_counter, 2);
+    verif::emit(|seq| json!({"ev": "start", "seq": seq, "task": 0, "id": 0, "call": "reg", "ts": ts_json(remote)}).to_string());
+    clock.register_ts(remote).await;
+    verif::emit(|seq| json!({"ev": "end", "seq": seq, "task": 0, "id": 0, "call": "reg", "out": [], "ts": ts_json(remote)}).to_string());
+    for id in 1..=gets {
+        verif::emit(|seq| json!({"ev": "start", "seq": seq, "task": 0, "id": id, "call": "get", "ts": []}).to_string());
+        let out = clock.get_time().await;
+        verif::emit(|seq| json!({"ev": "end", "seq": seq, "task": 0, "id": id, "call": "get", "out": ts_json(out), "ts": []}).to_string());
+    }
+}
+
 pub fn record() {
     let seed: u64 = arg_or("--seed", "1").parse().unwrap();
     let runs: u64 = arg_or("--runs", "40").parse().unwrap();
@@ -153,6 +171,18 @@ pub fn record() {
         let evs = verif::take_events();
         rt.shutdown_background();
         writeln!(f, "{}", json!({"ev": "reset", "run": format!("flood-{getters}"), "node": NODE, "tasks": getters + 1, "runtime": "current-thread"})).unwrap();
+        for e in evs {
+            writeln!(f, "{}", e).unwrap();
+            events += 1;
+        }
+    }
+    for (remote_counter, gets) in [(65_520u16, 8u64), (65_530, 3), (65_523, 6)] {
+        let rt = tokio::runtime::Builder::new_current_thread().enable_all().build().unwrap();
+        verif::start_recording();
+        rt.block_on(limit_run(remote_counter, gets));
+        let evs = verif::take_events();
+        rt.shutdown_background();
+        writeln!(f, "{}", json!({"ev": "reset", "run": format!("limit-{remote_counter}"), "node": NODE, "tasks": 1, "runtime": "current-thread"})).unwrap();
         for e in evs {
             writeln!(f, "{}", e).unwrap();
             events += 1;
